@@ -1,5 +1,6 @@
 // ---- units/lifecycle/listing.rs ----
 //@ extract src/lifecycle/mod.rs closure fn get_sorted_lifecycles_as_vec#2
+//@   unless `sort_by_key`
 //@   sig pub fn lc_listing_cmp(a: &Lifecycle, b: &Lifecycle) -> (r: std::cmp::Ordering)
 //@   spec
 //@|    requires a.wf(), b.wf(),
@@ -9,6 +10,16 @@
 //@|        // b resumes a (b.resume_lc holds a's start time as it was when b was created): a is listed first, provided a's own
 //@|        // listing key is not later than that snapshot
 //@|        (b.resume_lc is Some && spec_rst(a) <= b.resume_lc->Some_0.start_time) ==> r is Less, // O:cmp.resumed_after_origin
+//@ end
+
+// the other shape of the same statement: `sorted_lcs.sort_by_key(|lc| KEY)`. Sorting by a key is sorting with the comparator
+// `key(a).cmp(key(b))`; the comparator of the property is spec_lc_cmp, i.e. the key has to be the (clamped) resume start time
+//@ extract src/lifecycle/mod.rs closure fn get_sorted_lifecycles_as_vec#2
+//@   when `sort_by_key`
+//@   sig pub fn lc_listing_key(lc: &&Lifecycle) -> (r: u64)
+//@   spec
+//@|    requires lc.wf(),
+//@|    ensures r == spec_rst(*lc), // O:cmp.key (the listing key orders like the comparator of the property: a resumed lifecycle never before the one it resumes)
 //@ end
 
 pub open spec fn rev(o: std::cmp::Ordering) -> std::cmp::Ordering {
